@@ -187,6 +187,57 @@ pub fn generate(em: &mut Emitter, seed: u64, thorough: bool) {
             check_trace(em, what, &src[..src.len().min(200)], &p, st, &[], &mut rng, &mut counters);
         }
     }
+    // (5) memory accessed from several execution contexts: r accesses in the root context, a accesses
+    //     in a callee (call / syscall / dyncall / nested call), same / neighbouring / distant addresses,
+    //     short and long clock distances between accesses, locals in caller and callee
+    {
+        let mut ctx_progs: Vec<(String, Option<String>, String)> = Vec::new();
+        let access = |i: usize, far: bool, gap: usize| -> String {
+            let addr = if far { 70000 * (i as u64 + 1) + 5 } else { 10 + (i as u64 % 3) };
+            let pad = if gap > 0 { format!("repeat.{} push.0 drop end ", gap) } else { String::new() };
+            match i % 4 {
+                0 => format!("{}push.{} mem_store.{} ", pad, i + 1, addr),
+                1 => format!("{}mem_load.{} drop ", pad, addr),
+                2 => format!("{}padw mem_storew.{} dropw ", pad, addr),
+                _ => format!("{}padw mem_loadw.{} dropw ", pad, addr),
+            }
+        };
+        for &a in &[1usize, 2, 3, 5] {
+            for &r in &[0usize, 1, 3] {
+                for &(far, gap) in &[(false, 0usize), (true, 0), (false, 40), (true, 300)] {
+                    let callee: String = (0..a).map(|i| access(i, far, gap)).collect();
+                    let root_pre: String = (0..r).map(|i| access(i + 1, far, 0)).collect();
+                    let root_post: String = (0..r).map(|i| access(i, !far, gap / 2)).collect();
+                    ctx_progs.push((format!("call a={} r={} far={} gap={}", a, r, far, gap), None,
+                        format!("proc.f {} end begin {} call.f {} end", callee, root_pre, root_post)));
+                    if far == false && gap == 0 {
+                        ctx_progs.push((format!("two calls a={} r={}", a, r), None,
+                            format!("proc.f {} end begin {} call.f call.f {} end", callee, root_pre, root_post)));
+                        ctx_progs.push((format!("nested call a={} r={}", a, r), None,
+                            format!("proc.g {} end proc.f {} call.g {} end begin {} call.f {} end", callee, root_pre, callee, root_pre, root_post)));
+                        ctx_progs.push((format!("syscall a={} r={}", a, r), Some(format!("export.k {} end", callee)),
+                            format!("begin {} syscall.k {} end", root_pre, root_post)));
+                        ctx_progs.push((format!("call then syscall a={} r={}", a, r), Some(format!("export.k {} end", callee)),
+                            format!("proc.f {} syscall.k {} end begin {} call.f {} end", callee, callee, root_pre, root_post)));
+                        ctx_progs.push((format!("dyncall a={} r={}", a, r), None,
+                            format!("proc.f {} end begin {} procref.f dyncall dropw {} end", callee, root_pre, root_post)));
+                        ctx_progs.push((format!("locals a={} r={}", a, r), None,
+                            format!("proc.f.2 push.7 loc_store.0 {} loc_load.1 drop loc_load.0 drop end proc.h.3 push.9 loc_store.2 {} call.f loc_load.2 drop end begin {} call.h {} end", callee, root_pre, root_pre, root_post)));
+                    }
+                }
+            }
+        }
+        em.stat("memory_across_contexts_programs", ctx_progs.len());
+        for (what, k, src) in ctx_progs.iter() {
+            match assemble(k.as_deref(), src, false) {
+                Ok(p) => {
+                    exec_case(em, &p, &[], &[], None, "sys");
+                    check_trace(em, &format!("memory across contexts ({})", what), &src[..src.len().min(300)], &p, &[], &[], &mut rng, &mut counters);
+                }
+                Err(e) => em.oracle_failures.push(format!("C03 generated program does not assemble: {} :: {}", src, e)),
+            }
+        }
+    }
     em.stat("traces_checked", counters[0]);
     em.stat("rows_checked", counters[1]);
     em.stat("aux_segments_checked", counters[2]);
